@@ -299,6 +299,9 @@ func one(ep, stage string, in input) bool {
 	fail := func(sig, clause string, obs, exp any) {
 		run.Violate(core.Violation{Sig: sig, Clause: clause, Case: cse, Observe: obs, Expect: exp})
 	}
+	if len(in.text)%97 == 3 && len(in.text) < 200 {
+		run.Sample(map[string]any{"entry_point": ep, "stage": stage, "input": in.text, "code": o.Code, "line": o.Line, "col": o.Col, "message": firstN(o.Msg, 100)})
+	}
 	wraps := strings.HasPrefix(ep, "gosqlx.") || strings.HasPrefix(ep, "parser.")
 	if wraps || (o.Line > 1) {
 		run.Nontrivial(ep + "\x00" + in.text)
